@@ -38,21 +38,17 @@ Print Assumptions C19_poisson_total.
 
 (* ---- gamma: N releases from the start, non-decreasing for EVERY list of non-negative doubles
    (binary64 additions and round() included), as long as the start is below 2^53 us *)
-Theorem C19_gamma : forall p c zd fd rs, p_type p = GAMMA -> Z.abs (et_time (p_start p)) < 2 ^ 53 ->
+Theorem C19_gamma : forall p c zd fd rs, p_type p = GAMMA -> Z.abs (us (p_start p)) < 2 ^ 53 ->
   Forall (fun d => 0 <= fm d) fd -> get_release_times p c zd fd = Ok rs -> p_n p <> 0 ->
-  length rs = Z.to_nat (p_n p) /\ hd_error rs = Some (us_time (et_time (p_start p))) /\ nondecreasing rs.
+  length rs = Z.to_nat (p_n p) /\ hd_error rs = Some (us_time (us (p_start p))) /\ nondecreasing rs.
 Proof. exact gamma_release_times. Qed.
 Print Assumptions C19_gamma.
-Theorem C19_gamma_first_is_start : forall p c zd fd rs, p_type p = GAMMA -> et_unit (p_start p) = U_US ->
-  get_release_times p c zd fd = Ok rs -> p_n p <> 0 -> hd_error rs = Some (p_start p).
+(* the first release is the start, for a start given in any unit *)
+Theorem C19_gamma_first_is_start : forall p c zd fd rs, p_type p = GAMMA ->
+  get_release_times p c zd fd = Ok rs -> p_n p <> 0 -> exists r0, hd_error rs = Some r0 /\ us r0 = us (p_start p).
 Proof. exact gamma_first_is_start. Qed.
 Print Assumptions C19_gamma_first_is_start.
-(* finding C19-gamma-start-unit: with a start in ms or s the first release is NOT the start *)
-Theorem C19_gamma_first_refuted : exists p c fd rs, p_type p = GAMMA /\ get_release_times p c [] fd = Ok rs /\
-  Forall (fun d => 0 <= fm d) fd /\ exists r0, hd_error rs = Some r0 /\ us r0 <> us (p_start p).
-Proof. exact gamma_first_refuted. Qed.
-Print Assumptions C19_gamma_first_refuted.
-(* beyond 2^53 us the int -> double conversion of the start loses the order *)
+(* the bound 2^53 us in C19_gamma is needed (int -> double conversion of the start); outside the property's range *)
 Theorem C19_gamma_huge_start_refuted : exists p c fd rs, p_type p = GAMMA /\ get_release_times p c [] fd = Ok rs /\
   Forall (fun d => 0 <= fm d) fd /\ ~ nondecreasing rs.
 Proof. exact gamma_huge_start_refuted. Qed.
@@ -103,11 +99,14 @@ Theorem C19_fuzz_contract_satisfiable : forall t minv maxv, 0 <= t ->
 Proof. exact uniform_contract_sat. Qed.
 Print Assumptions C19_fuzz_contract_satisfiable.
 
-(* every task of an instantiated graph has the deadline release + completion_time (critical path, SLOs where declared)
-   stretched within the declared variance and clamped to the bounds; the draw used is the SECOND uniform value *)
-Theorem C19_deadline : forall jg f release index next us_ tg next' us' ct minv maxv,
+(* every task of an instantiated graph has the deadline release + BASE stretched within the declared variance and
+   clamped to the bounds, where BASE is JobGraph.completion_time (critical path, SLOs where declared) or, with
+   --use_branch_predicated_deadlines, the slowest-strategy runtimes along the longest path over the tasks of
+   non-zero probability; the draw used is the SECOND uniform value *)
+Theorem C19_deadline : forall jg f release index next us_ tg next' us',
   generate_task_graph jg f release index next us_ = Ok (tg, next', us') ->
-  completion_time jg = Ok ct ->
+  exists created ct, deadline_base jg f (tg_graph tg) created = Ok ct /\ et_unit ct = U_US /\
+  forall minv maxv,
   Z.abs (et_time ct) < 2 ^ 53 ->
   (forall u, nth_error us_ 1 = Some u -> uniform_contract (et_time ct) minv maxv u = true) ->
   Z.abs (et_time ct + clampZ (if_minb f) (if_maxb f) (var_lo (et_time ct) minv maxv)) <= 2 ^ 53 ->
@@ -117,6 +116,10 @@ Theorem C19_deadline : forall jg f release index next us_ tg next' us' ct minv m
     <= us release + et_time ct + clampZ (if_minb f) (if_maxb f) (var_hi (et_time ct) minv maxv)) (tg_tasks tg).
 Proof. exact deadline_within_bounds. Qed.
 Print Assumptions C19_deadline.
+Theorem C19_deadline_base_default : forall jg f tgg created, if_bpd f = false ->
+  deadline_base jg f tgg created = completion_time jg.
+Proof. exact deadline_base_default. Qed.
+Print Assumptions C19_deadline_base_default.
 Theorem C19_completion_time_in_us : forall jg ct, completion_time jg = Ok ct -> et_unit ct = U_US.
 Proof. exact completion_time_us. Qed.
 Print Assumptions C19_completion_time_in_us.
@@ -151,7 +154,7 @@ Print Assumptions C19_graph_constructor.
    instantiated by the loader model with the horizon EventTime(loop_timeout) *)
 Theorem C19_loader_periodic_instantiated :
   exists ls tgs, load_workload (lc_profiles periodic_doc) (lc_graphs periodic_doc) (lc_flags periodic_doc) = Ok ls /\
-    populate ls (mkIF 0 (2 ^ 63 - 1) (0, 0)) (lc_completion periodic_doc) [] []
+    populate ls (mkIF 0 (2 ^ 63 - 1) (0, 0) false) (lc_completion periodic_doc) [] []
              [mkF 0 0; mkF 0 0; mkF 0 0; mkF 0 0; mkF 0 0; mkF 0 0; mkF 0 0; mkF 0 0] 0 = Ok tgs /\
     map (fun x => map (fun tg => map (fun t => et_time (t_release t)) (tg_tasks tg)) (snd x)) tgs = [[[5]; [305]; [605]; [905]]].
 Proof. exact loader_periodic_instantiated. Qed.
